@@ -50,6 +50,7 @@ def apply(raw, spans, m):
     if op == "setlen":
         if hdr == 2: return raw[:off + 1] + bytes([b & 0xff]) + raw[off + 2:]
         return raw[:off + 2] + bytes([(b >> 8) & 0xff, b & 0xff]) + raw[off + 4:]
+    if op == "setfirst": return raw[:off + hdr] + bytes([b]) + raw[off + hdr + 1:]
     if op == "delete": return raw[:off] + raw[off + hdr + ln:]
     if op == "duplicate": return raw[:off + hdr + ln] + raw[off:off + hdr + ln] + raw[off + hdr + ln:]
     if op == "toggleNC": return raw[:off] + bytes([raw[off] ^ 0x40]) + raw[off + 1:]
